@@ -68,6 +68,36 @@ Theorem C10_offsets_follow_data f ilst_data cb f' atoms path :
 Proof. exact (c10_offsets_follow_data f ilst_data cb f' atoms path). Qed.
 Print Assumptions C10_offsets_follow_data.
 
+(* Two readings of C10_offsets_follow_data spelled out (both were the subject of breaking changes the quick run had missed):
+   the tfhd base offset is shifted whenever bit 0 of tf_flags is set, whatever the other flag bits are ... *)
+Theorem C10_tfhd_any_flags f ilst_data cb f' atoms path :
+  mp4_wf f = true -> mp4_atoms f = Ok atoms -> mp4_path atoms ILST_PATH = Some path -> mp4_tags_clean atoms = true ->
+  mp4_save f ilst_data cb = Ok f' ->
+  exists off old, mp4_region_of path = Some (off, old) /\
+    let delta := zlen f' - zlen f in
+    forall T flags, In T (mp4_tfhd_list atoms) ->
+      be_decode (mp4_rd f (ma_off T + 9) 3) = flags -> Z.testbit flags 0 = true ->
+      tfhd_base f' (mp4_newpos off old delta (ma_off T)) = mp4_shift off delta (tfhd_base f (ma_off T)).
+Proof. exact (c10_tfhd_any_flags f ilst_data cb f' atoms path). Qed.
+Print Assumptions C10_tfhd_any_flags.
+
+(* ... and the entries of a chunk-offset table are shifted one by one: entry i moves iff entry i itself lies behind the region
+   start, independently of the first entry (media data on both sides of moov, a table whose entries straddle moov) *)
+Theorem C10_entries_individually f ilst_data cb f' atoms path :
+  mp4_wf f = true -> mp4_atoms f = Ok atoms -> mp4_path atoms ILST_PATH = Some path -> mp4_tags_clean atoms = true ->
+  mp4_save f ilst_data cb = Ok f' ->
+  exists off old, mp4_region_of path = Some (off, old) /\
+    let delta := zlen f' - zlen f in
+    let np := mp4_newpos off old delta in
+    (forall T i, In T (mp4_stco_list atoms) -> 0 <= i < zlen (tab_entries 4 f (ma_off T)) ->
+       zlen (tab_entries 4 f' (np (ma_off T))) = zlen (tab_entries 4 f (ma_off T)) /\
+       znth i (tab_entries 4 f' (np (ma_off T))) = mp4_shift off delta (znth i (tab_entries 4 f (ma_off T)))) /\
+    (forall T i, In T (mp4_co64_list atoms) -> 0 <= i < zlen (tab_entries 8 f (ma_off T)) ->
+       zlen (tab_entries 8 f' (np (ma_off T))) = zlen (tab_entries 8 f (ma_off T)) /\
+       znth i (tab_entries 8 f' (np (ma_off T))) = mp4_shift off delta (znth i (tab_entries 8 f (ma_off T)))).
+Proof. exact (c10_entries_individually f ilst_data cb f' atoms path). Qed.
+Print Assumptions C10_entries_individually.
+
 (* The file has no moov.udta.meta.ilst yet: [udta]meta(hdlr, ilst, free) is inserted at the data start `off` of moov.udta, or of
    moov when there is no udta.  Same statement with an empty region; the ancestors (moov [, udta]) carry their old length + delta.
    Precondition found by the proof: no offset table starts exactly at the insertion point (such a table would be the FIRST
@@ -130,8 +160,8 @@ Definition ex_ilst_small : list Z := mp4_render N_ilst (mp4_render [169;110;97;1
 Definition ex_ilst_big : list Z := mp4_render N_ilst (mp4_render [169;110;97;109] (mp4_render [100;97;116;97] ([0;0;0;1;0;0;0;0] ++ mp4_pattern 90 1))).
 Definition ex_layout (moov_first : bool) (meta : list mp4_mitem) (moofs : list mp4_moof) (big : Z) (size0 : bool) : mp4_layout :=
   mkLayout moov_first 2 false (-1) meta ex_ilst_small
-    [mkTrak false true [0; 10; 31]; mkTrak true true [5; 32]] moofs (mp4_pattern 32 1) big 0 size0.
-Definition ex_file : list Z := mp4_build (ex_layout true [MHdlr; MIlst; MFree 16] [mkMoof true 3 0; mkMoof true 7 2] 4 false).
+    [mkTrak false true [0; 10; 31]; mkTrak true true [5; 32]] moofs (mp4_pattern 32 1) big 0 size0 [].
+Definition ex_file : list Z := mp4_build (ex_layout true [MHdlr; MIlst; MFree 16] [mkMoof 1 3 0; mkMoof 131073 7 2] 4 false).
 
 Example C10_ex_wellformed : mp4_wf ex_file = true.
 Proof. vm_compute. reflexivity. Qed.
@@ -182,7 +212,7 @@ Proof. vm_compute. reflexivity. Qed.
 (* a file without udta / without meta / without ilst: the new atoms are created, every offset follows, the result is well-formed *)
 Definition ex_new (udta : Z) (meta : list mp4_mitem) (moov_first : bool) : list Z :=
   mp4_build (mkLayout moov_first udta false (-1) meta ex_ilst_small
-    [mkTrak false true [0; 10; 31]; mkTrak true true [5; 32]] [mkMoof true 3 0; mkMoof true 7 2] (mp4_pattern 32 1) 0 0 false).
+    [mkTrak false true [0; 10; 31]; mkTrak true true [5; 32]] [mkMoof 1 3 0; mkMoof 131073 7 2] (mp4_pattern 32 1) 0 0 false []).
 Definition ex_new_check (f : list Z) : bool :=
   mp4_wf f &&
   match mp4_atoms f with
@@ -195,6 +225,34 @@ Example C10_ex_new_no_meta : ex_new_check (ex_new 1 [] true) = true /\ ex_new_ch
 Proof. vm_compute. split; reflexivity. Qed.
 Example C10_ex_new_offsets : ex_moved (ex_new 0 [] true) ex_ilst_big 9 = true /\ ex_moved (ex_new 2 [MHdlr; MFree 8] true) ex_ilst_big 0 = true.
 Proof. vm_compute. split; reflexivity. Qed.
+
+(* media data on both sides of moov (ftyp, mdat, moov, mdat) and tables whose entries straddle moov; tfhd atoms with
+   tf_flags 0x000001, 0x020001, 0x000011, 0x010039 and 0x020000 (no base offset): every entry behind the region moves by the
+   size change, every entry in front of it stays, each one on its own *)
+Definition ex_straddle : list Z :=
+  mp4_build (mkLayout false 2 false (-1) [MHdlr; MIlst; MFree 8] ex_ilst_small
+    [mkTrak false true [0; 500; 5; 510]; mkTrak true true [497; 3]]
+    [mkMoof 1 3 0; mkMoof 131073 505 2; mkMoof 17 499 0; mkMoof 65593 9 3; mkMoof 131072 0 0]
+    (mp4_pattern 32 1) 0 0 false (mp4_pattern 40 7)).
+Definition ex_follow (f : list Z) (ilst : list Z) (pad : Z) : bool :=
+  match mp4_offsets f, mp4_atoms f, mp4_save f ilst (mp4_cb_const pad) with
+  | Ok es, Ok atoms, Ok f' =>
+    match mp4_path atoms ILST_PATH with
+    | Some path =>
+      match mp4_region_of path, mp4_offsets f' with
+      | Some (off, _), Ok es' =>
+        list_eqb (map (fun e => mp4_shift off (zlen f' - zlen f) (snd e)) es) (map (fun e => snd e) es') &&
+        existsb (fun e => snd e <? off) es && existsb (fun e => off <? snd e) es && negb (zlen f' =? zlen f)
+      | _, _ => false end
+    | None => false end
+  | _, _, _ => false
+  end.
+Example C10_ex_straddle_wellformed : mp4_wf ex_straddle = true.
+Proof. vm_compute. reflexivity. Qed.
+Example C10_ex_straddle_grow : ex_follow ex_straddle ex_ilst_big 9 = true.
+Proof. vm_compute. reflexivity. Qed.
+Example C10_ex_straddle_shrink : ex_follow ex_straddle mp4_empty_ilst 0 = true.
+Proof. vm_compute. reflexivity. Qed.
 
 (* ------------------------------------------------------------------ regression witnesses (defects fixed in /repo) *)
 (* (1) every top-level moof's tfhd is patched, not only the first (C10_ex_offsets_grow has two moof atoms) *)
